@@ -1735,7 +1735,8 @@ namespace awkward {
           nextcontent.get()->getitem_next(nexthead,
                                           nexttail,
                                           nextadvanced),
-          array.shape());
+          array.shape(),
+          lenstarts);
       }
       else {
         return nextcontent.get()->getitem_next(nexthead,
